@@ -156,7 +156,7 @@ def resolve (reg : Registry) (ns : Ns) (ev : J) (args : List J) : Except Err Res
   let nsJ := J.str ns
   -- function handlers
   let step1 : Except Err (Option Resolved) :=
-    if reg.fnNs ns then
+    if ns != star && reg.fnNs ns then
       if !hashable ev then .error .typeError
       else if !isStar && inDict (reg.fn ns) ev then .ok (some (.fn (.fn ns ((evStr ev).getD [])) args))
       else if !isRes && reg.fn ns star then .ok (some (.fn (.fn ns star) (ev :: args)))
@@ -179,7 +179,7 @@ def resolve (reg : Registry) (ns : Ns) (ev : J) (args : List J) : Except Err Res
     | .ok none =>
       -- class-based namespaces
       let target : Option (Ns × List J) :=
-        if reg.cls ns then some (ns, args)
+        if ns != star && reg.cls ns then some (ns, args)
         else if reg.cls star then some (star, nsJ :: args)
         else none
       match target with
